@@ -1832,6 +1832,13 @@ func (r *run) indexVal(cur *node, fr *frame, x *ssa.Index) Value {
 		}
 		el := c.Select(xv.A, idx)
 		return r.wrapElem(el, xv.T.Elem())
+	case Scalar:
+		// s[i] on a string value (go/ssa uses Index for strings that are not addressable operands)
+		if xv.T.Sort == StrSort {
+			ln := r.uf("strlen$", r.idx(), xv.T)
+			r.abnormal(cur, fr, "index", x, c.Not(c.And(r.sle(r.idxConst(0), idx), r.slt(idx, ln))))
+			return Scalar{r.uf("strat$", r.scalarSort(types.Typ[types.Uint8]), xv.T, idx)}
+		}
 	}
 	r.unsupported("Index on %T", cur.val(x.X))
 	return nil
@@ -1906,6 +1913,14 @@ func (r *run) stringSlice(cur *node, fr *frame, x *ssa.Slice, s Scalar, lo, hi *
 	sub := r.uf("str.sub", StrSort, s.T, lo, hi)
 	// len(s[lo:hi]) == hi - lo (on the paths where the slice expression does not panic)
 	r.assume(cur.alive, c.Implies(c.And(r.sle(r.idxConst(0), lo), r.sle(lo, hi), r.sle(hi, ln)), c.Eq(r.uf("strlen$", r.idx(), sub), r.isub(hi, lo))))
+	if r.mode == "int" && !sub.HasBound {
+		// ... and its bytes are those of s from lo on
+		bs := r.scalarSort(types.Typ[types.Uint8])
+		j := c.BoundVar("j", r.idx())
+		at := r.uf("strat$", bs, sub, j)
+		r.assume(cur.alive, c.Forall([]*smt.Term{j}, c.Implies(c.And(r.sle(r.idxConst(0), lo), r.sle(lo, hi), r.sle(hi, ln), r.sle(r.idxConst(0), j), r.slt(j, r.isub(hi, lo))),
+			c.Eq(at, r.uf("strat$", bs, s.T, r.iadd(lo, j)))), []*smt.Term{at}))
+	}
 	return Scalar{sub}
 }
 
